@@ -24,9 +24,22 @@ func C06(o *world.Obs) *Result {
 		verdict, reason := model.Storability(c.Method, c.Header, c.Status, c.RespHdr, c.FailAt > 0)
 		switch verdict {
 		case "no":
-			// a 304 answering the cache's own validation request legitimately updates the store
-			if c.Status == http.StatusNotModified && c.Ex >= 0 && !HasClientConditional(o.Exchanges[c.Ex].Req) {
-				continue
+			if c.Status == http.StatusNotModified && c.Ex >= 0 {
+				// a 304 answering the cache's own validation request legitimately updates the
+				// store (C08); only a 304 to the client's own conditional request on a miss is
+				// a response that must not be stored
+				ex := o.Exchanges[c.Ex]
+				if !HasClientConditional(ex.Req) {
+					continue
+				}
+				ch := ReqHeader(ex.Req)
+				if c.Header.Get("If-None-Match") != ch.Get("If-None-Match") || c.Header.Get("If-Modified-Since") != ch.Get("If-Modified-Since") {
+					continue // the cache substituted its own validators
+				}
+				if _, seen := seenStored(o, ex); seen {
+					r.Unspec("c06-client-conditional-with-stored-entry")
+					continue
+				}
 			}
 			fs = append(fs, forbidden{c, reason})
 			r.NonTrivial = true
